@@ -584,7 +584,6 @@ def h_reduce_affine(eng):
     cas = M.install(eng, {"veccat": stub(veccat), "depends_on": stub(depends_on), "jacobian": stub(lambda eng, e, x: RT("jacobian", e, x)),
                           "vertcat": stub(lambda eng, *a: RT("vertcat", *a)), "mtimes": stub(lambda eng, a, b: RT("mtimes", a, b)),
                           "reshape": stub(lambda eng, e, shape: RT("reshape", e)), "MX": mx, "Function": fn_cls})
-    eng.ext_modules["itertools"].attrs["chain"] = stub(lambda eng, *a: VList([x for s_ in a for x in eng.iterate(s_)]))
 
     def var(name):
         v = variable(name)
